@@ -22,6 +22,14 @@ pub use provenance::{Narrowings, Provenance};
 pub use scopes::{Binding, Parameter, Scope, ScopeKind};
 pub use typing::{TupleAccessor, TypeAliasDef, resolve_type_alias_for_display, union_type_ids};
 
+/// Verification hook (off unless built with `--cfg quiver_verif`): exposes the otherwise private
+/// narrowing and unification primitives so an external harness can drive them directly.
+#[cfg(quiver_verif)]
+pub mod verif {
+    pub use super::narrowing::{compute_complement, filter_variants_by_field, intersect_types};
+    pub use super::typing::{contains_variables, substitute, unify, union_type_ids};
+}
+
 use crate::{
     ast,
     parser::SourceSpan,
